@@ -260,6 +260,65 @@ def _helper_with_dict(fi, call, d, _depth=[0]):
     return r, dparam[0]
 
 
+def display_rule(prog, run):
+    """R-display: in Geo2MplPlotter.plot_mode every artist that belongs to the sensors (markers, lines, surfaces) is drawn at the DISPLACED
+    points `pts_coord + mapped value x sign`: the coordinate table that reaches plt_nodes / plt_lines / plt_surf - directly or through
+    a helper of the plotter - contains that sum, not the undeformed `pts_coord` alone (which is right only for the background and
+    for the `initial_coord` colouring argument).  The displacement itself = mapped value x sign."""
+    run.rule("R-display", "plot_mode (geo2): markers, lines and surfaces are drawn at pts_coord + dfphi_map x sens_sign, through any helper", 3)
+    try:
+        ci = prog.cls("support.geometry.mpl_plotter.Geo2MplPlotter")
+    except Exception:
+        run.ob("R-display", "pyoma2.support.geometry.mpl_plotter", "plotter", None, "Geo2MplPlotter not found")
+        return
+    m = ci.methods.get("plot_mode")
+    if m is None:
+        run.ob("R-display", ci.qual, "plot_mode", None, "no plot_mode method")
+        return
+    f = rel(prog.mods[m.mod].path)
+    n = 0
+    for fn_ in ("plt_nodes", "plt_lines", "plt_surf"):
+        callee = prog.func("functions.plot." + fn_)
+        coord = astq.params_of(callee.node)[0][1]
+        for rec in astq.forwarded_args(prog, m, callee.qual, depth=2):
+            a = rec["args"].get(coord)
+            c = rec["outer_call"]
+            tbl = rec["args"].get(astq.params_of(callee.node)[0][2]) if fn_ != "plt_nodes" else None
+            # background tables are drawn undeformed by design
+            if tbl is not None and "bg_" in astq.src(tbl).lower():
+                continue
+            if a is not None and "bg_" in astq.src(a).lower():
+                continue
+            n += 1
+            if a is None:
+                run.ob("R-display", m.qual, f"{fn_}: coordinates", None, "coordinate argument not expressible in plot_mode", file=f, node=c)
+                continue
+            txt = astq.src(a, 160)
+            has_pts = "pts_coord" in txt
+            sums = [b for b in ast.walk(a) if isinstance(b, ast.BinOp) and isinstance(b.op, ast.Add)]
+            displaced = has_pts and any("pts_coord" in astq.src(b.left, 200) + astq.src(b.right, 200) and ("dfphi_map" in astq.src(b, 400) or "Phi" in astq.src(b, 400)) for b in sums)
+            ok = True if displaced else (False if has_pts else None)
+            via = "" if len(rec["chain"]) == 1 else f" (through {' -> '.join(rec['chain'][1:])})"
+            run.ob("R-display", m.qual, f"{fn_}: drawn at the displaced points", ok,
+                   f"`{fn_}(.., {astq.src(a, 70)}, ..)`{via}" + ("" if ok is not False else ": the UNDEFORMED point table is drawn - the mode shape is not shown on these artists"),
+                   witness=f"{fn_}:{astq.src(a, 50)}", file=f, node=c, config=f"{fn_}#{n}")
+            if displaced:
+                sign_ok = any("sens_sign" in astq.src(b, 400) for b in sums)
+                run.ob("R-display", m.qual, f"{fn_}: displacement = mapped value x sign", sign_ok, f"`{txt[:120]}`", witness="sign", file=f, node=c, config=f"{fn_}#{n}s")
+    if not n:
+        run.ob("R-display", m.qual, "drawing calls", None, "no plt_nodes / plt_lines / plt_surf call reachable from plot_mode", file=f)
+    # np.vectorize without otypes takes its output dtype from the FIRST element: an integer first cell truncates every mapped value
+    run.rule("R-map-dtype", "cell-wise substitution in dfphi_map_func is dtype-safe (DataFrame.replace / vectorize with otypes / explicit loop)", 1)
+    mf = prog.func("functions.gen.dfphi_map_func")
+    ff = rel(prog.mods[mf.mod].path)
+    bad = [c for c in ast.walk(mf.node) if isinstance(c, ast.Call) and astq.callee_name(prog, mf, c) == "numpy.vectorize" and astq.kwarg(c, "otypes") is None]
+    for c in bad:
+        run.ob("R-map-dtype", mf.qual, "np.vectorize declares its output type", False,
+               f"`{astq.src(c, 60)}`: without `otypes` numpy takes the output dtype from the first cell - an integer 0 there makes every mapped value an integer", witness=astq.src(c, 50), file=ff, node=c)
+    if not bad:
+        run.ob("R-map-dtype", mf.qual, "cell-wise substitution", True, "no dtype-by-first-element mechanism", file=ff, node=mf.node)
+
+
 def check(prog, run):
     run.rule("R-guard", "every read of an optional sheet is under a presence test / after the default-filling loop / after a store on every path", 10)
     run.rule("R-zero-base", "all line/surface index sheets of all_sheets are shifted to zero-based indices", 2)
@@ -347,6 +406,7 @@ def check(prog, run):
     run.rule("R-validated", "Geometry1/Geometry2 are built from the tables returned by check_on_geo1/2 (validated, normalised, re-indexed), keyword by keyword", 10)
     validated(prog, run)
     attr_rule(prog, run)
+    display_rule(prog, run)
     try:
         from .. import seqsig
     except ImportError:
